@@ -278,7 +278,10 @@ func NewFunc[F func(vm *VM) | func(vm *VM) Value | func(vm *VM, args []Value) | 
 		res = newFunc(argc, rets, f)
 	case func(vm *VM) Value: // 0->1
 		res = newFunc(argc, rets, func(vm *VM) {
-			vm.stack = append(vm.stack, f(vm))
+			// the callback takes no args parameter: its argc arguments are dropped, like the
+			// args-taking forms remove theirs, so that its result is what the caller sees
+			r := f(vm)
+			vm.stack = append(vm.stack[:len(vm.stack)-argc], r)
 		})
 	case func(vm *VM, args []Value): // N->0
 		res = newFunc(argc, rets, func(vm *VM) {
